@@ -1654,7 +1654,14 @@ class SymbolicDim(_protocols.SymbolicDimProtocol, _display.PrettyPrintable):
         """
         if self._expr is None:
             return SymbolicDim(None)
-        return SymbolicDim(sympy.simplify(self._expr))
+        simplified = sympy.simplify(self._expr)
+        try:
+            # The dimension is identified by its text: keep the original expression when
+            # SymPy rewrote it into a form the text cannot express (e.g. Piecewise for sign()).
+            _symbolic_shapes.parse_symbolic_expression(str(simplified))
+        except (ValueError, TypeError):
+            simplified = self._expr
+        return SymbolicDim(simplified)
 
     def evaluate(self, bindings: Mapping[str, int]) -> int | SymbolicDim:
         """Evaluate the symbolic dimension with concrete values.
